@@ -108,7 +108,7 @@ PUMP_TYPES = ["P1", "P2", "P3"]
 
 
 def gen_hydraulic(rng, fluid=None, n=None, features=(), label_scheme="contiguous", tfluid_uniform=False,
-                  heights=True, max_sections=3, oos=False):
+                  heights=True, max_sections=3, oos=False, qscale=1.0):
     """Random supplied network: spanning tree + chords, loads, 1..3 ext grids.
 
     *features* may contain: "valves", "pi_valves", "pump", "compressor", "flow_control",
@@ -193,7 +193,7 @@ def gen_hydraulic(rng, fluid=None, n=None, features=(), label_scheme="contiguous
                 loss_coefficient=float(rng.uniform(0, 5)))
         elif "flow_control" in feats and r < 0.45 and cnt.get("flow_control", 0) < 2:
             add("flow_control", from_junction="j%d" % a, to_junction="j%d" % b,
-                controlled_mdot_kg_per_s=float(rng.uniform(0.0, 0.4 if not gas else 0.004)),
+                controlled_mdot_kg_per_s=float(rng.uniform(0.0, 0.4 if not gas else 0.004)) * qscale,
                 control_active=bool(rng.random() < 0.75), in_service=True)
         else:
             rpipe(a, b, chord=True)
@@ -206,7 +206,7 @@ def gen_hydraulic(rng, fluid=None, n=None, features=(), label_scheme="contiguous
                     inner_diameter_mm=float(rng.uniform(80, 400)),
                     opened=bool(rng.random() < 0.8) if "closed" in feats else True,
                     loss_coefficient=float(rng.uniform(0, 5)))
-    qmax = 0.6 if not gas else 0.008
+    qmax = (0.6 if not gas else 0.008) * qscale
     for i in range(1, n):
         if rng.random() < 0.6:
             add("sink", junction="j%d" % i, mdot_kg_per_s=float(rng.uniform(0, qmax)),
